@@ -35,3 +35,28 @@ def sig_index(name, obj):
     import dbus.service
     return [(i, args) for i, (kind, iface, nm, sig, args, o) in enumerate(dbus.service.EMITTED)
             if kind == 'signal' and nm == name and o is obj]
+
+
+def build_world(c, real_chunk=False, **extra):
+    ''' Two endpoints with symbolic segment sizes / MRUs, established. '''
+    from vf.engine import smin
+    s_a = c.sym_int('segA', 1, 2 ** 64 - 1, size=True)
+    s_b = c.sym_int('segB', 1, 2 ** 64 - 1, size=True)
+    mru_a = c.sym_int('mruA', 1, 2 ** 64 - 1, size=True)
+    mru_b = c.sym_int('mruB', 1, 2 ** 64 - 1, size=True)
+    w = World(mkcfg('dtn://a/', segment_size_tx_initial=s_a, segment_size_mru=mru_a, **extra),
+              mkcfg('dtn://b/', segment_size_tx_initial=s_b, segment_size_mru=mru_b, **extra))
+    if not real_chunk:
+        w.a.CHUNK_SIZE = w.b.CHUNK_SIZE = BIG
+    w.seg = {'A': smin(s_a, mru_b), 'B': smin(s_b, mru_a)}
+    return w
+
+
+def queue_bundle(c, w, side, i, kseg, hi=2 ** 64 - 1):
+    ''' Queue one symbolic bundle on a side; at most kseg segments (precondition on the inputs). '''
+    ln = c.sym_int('len%s%d' % (side, i), 0, hi, size=True)
+    c.assume(ln <= kseg * w.seg[side])
+    data = c.sym_blob('bundle%s%d' % (side, i), ln)
+    h = w.a if side == 'A' else w.b
+    tid = h.send_bundle_fileobj(BytesIO(data))
+    return (tid, ln, data)
